@@ -224,11 +224,11 @@ def triage(prop, engine, eng, viol_rows, seed, tier, minimise=True, tag=""):
         e = findings.match(prop, v["signature"], facts, known)
         if e is not None:
             n_known += 1
-            tag = e.get("id") or e.get("signature")
-            if tag not in printed_known:
-                printed_known.add(tag)
+            ktag = e.get("id") or e.get("signature")
+            if ktag not in printed_known:
+                printed_known.add(ktag)
                 lines.append("KNOWN-FINDING: property=%s %s [id=%s, e.g. signature=%s, first seed=%d]" % (
-                    prop, e.get("what", ""), tag, v["signature"], row["seed"]))
+                    prop, e.get("what", ""), ktag, v["signature"], row["seed"]))
             continue
         key = v["signature"]
         if key not in groups:
